@@ -163,6 +163,14 @@ func main() {
 			}
 		}
 	}
+	// scratch directories of runs that were killed before they could clean up (older than any run can last)
+	if old, _ := filepath.Glob(filepath.Join(tmpRoot, "verif-C[0-9][0-9]-*")); len(old) > 0 {
+		for _, d := range old {
+			if fi, err := os.Stat(d); err == nil && fi.IsDir() && time.Since(fi.ModTime()) > 4*time.Hour {
+				os.RemoveAll(d)
+			}
+		}
+	}
 	bdir, err := os.MkdirTemp(tmpRoot, "verif-"+id+"-")
 	if err != nil {
 		die(2, "mktemp: %v", err)
